@@ -202,7 +202,7 @@ func c18lane(c *Check, rng *rand.Rand, lane, edits int) {
 	}
 	methods := []string{"rewrite-in-place", "rename-over", "truncate-then-write"}
 	for e := 0; e < edits; e++ {
-		kind := []string{"add", "remove", "remove", "enable", "disable", "replace-all", "same", "double", "double-long-then-short", "remove-one-of-duplicates"}[rng.Intn(10)]
+		kind := c18nextKind(rng)
 		method := methods[rng.Intn(len(methods))]
 		apply := func(k string) {
 			switch k {
@@ -215,6 +215,20 @@ func c18lane(c *Check, rng *rand.Rand, lane, edits int) {
 						break
 					}
 				}
+			case "swap-one": // one address leaves, another one enters: the list keeps its length
+				var in, out []string
+				for _, ip := range c18sources {
+					if st.list[ip] {
+						in = append(in, ip)
+					} else {
+						out = append(out, ip)
+					}
+				}
+				if len(in) > 0 && len(out) > 0 {
+					delete(st.list, in[rng.Intn(len(in))])
+					st.list[out[rng.Intn(len(out))]] = true
+				}
+				st.enable = true
 			case "enable":
 				st.enable = true
 			case "disable":
@@ -234,9 +248,9 @@ func c18lane(c *Check, rng *rand.Rand, lane, edits int) {
 			// is still running when the second edit arrives
 			st.enable = true
 			apply("add")
-			extra = 30000
+			extra = 6000 // (30000 made a single reload take seconds: the hash map's inserts are not O(1))
 			write("rename-over")
-			time.Sleep(time.Duration(10+rng.Intn(40)) * time.Millisecond)
+			time.Sleep(time.Duration(3+rng.Intn(15)) * time.Millisecond)
 			apply("remove")
 			write("rename-over")
 			method = "rename-over"
@@ -270,4 +284,24 @@ func c18lane(c *Check, rng *rand.Rand, lane, edits int) {
 			c.Sample(map[string]interface{}{"history": append([]string(nil), history...)})
 		}
 	}
+}
+
+
+var (
+	c18deckMu sync.Mutex
+	c18deck   []string
+)
+
+// c18nextKind deals edit kinds from a shared shuffled deck: every kind is used before
+// any is repeated, whatever the number of lanes.
+func c18nextKind(rng *rand.Rand) string {
+	c18deckMu.Lock()
+	defer c18deckMu.Unlock()
+	if len(c18deck) == 0 {
+		c18deck = []string{"add", "remove", "swap-one", "enable", "disable", "replace-all", "same", "double", "double-long-then-short", "remove-one-of-duplicates", "remove", "swap-one"}
+		rng.Shuffle(len(c18deck), func(i, j int) { c18deck[i], c18deck[j] = c18deck[j], c18deck[i] })
+	}
+	k := c18deck[0]
+	c18deck = c18deck[1:]
+	return k
 }
